@@ -57,6 +57,7 @@ type Cluster struct {
 	VolumeSrv  []*Proc
 	FilerProc  *Proc
 	S3Proc     *Proc
+	extra      []*Proc
 	mu         sync.Mutex
 	stopped    bool
 	HTTPClient *http.Client
@@ -383,7 +384,7 @@ func (c *Cluster) Stop() {
 		return
 	}
 	c.stopped = true
-	for _, p := range append([]*Proc{c.S3Proc, c.FilerProc}, c.VolumeSrv...) {
+	for _, p := range append(append([]*Proc{c.S3Proc, c.FilerProc}, c.extra...), c.VolumeSrv...) {
 		if p != nil {
 			p.Kill()
 		}
@@ -492,4 +493,25 @@ func UploadMultipart(url string, data []byte, filename, mime string, gzipped boo
 	}
 	code, _, b, err := Do("POST", url, h, body)
 	return code, b, err
+}
+
+// AddFiler starts an additional filer process (own store dir and port) with
+// extra arguments; it is stopped with the cluster. Returns the process (HTTP
+// port p, gRPC port p+10000).
+func (c *Cluster) AddFiler(name string, args ...string) (*Proc, error) {
+	fp := FreePort()
+	fdir := filepath.Join(c.Dir, name)
+	a := []string{"-logtostderr=true", "filer", "-ip=127.0.0.1", fmt.Sprintf("-port=%d", fp), "-master=" + c.MasterAddr(), "-defaultStoreDir=" + fdir}
+	a = append(a, args...)
+	p, err := startProc(name, fdir, fp, map[string]string{"security.toml": c.Opts.SecurityToml}, a...)
+	if err != nil {
+		return nil, err
+	}
+	c.mu.Lock()
+	c.extra = append(c.extra, p)
+	c.mu.Unlock()
+	if err = waitHTTP(fmt.Sprintf("http://127.0.0.1:%d/", fp), func(code int, b []byte) bool { return code < 500 }, 60*time.Second, p); err != nil {
+		return nil, err
+	}
+	return p, nil
 }
